@@ -3,7 +3,7 @@
 //! Events are judged by TraceDiscrete.tla, which computes the documented pmf numerators itself.
 use crate::rng::{ScriptRng, Sm};
 use crate::util::*;
-use rand_distr::{Binomial, Distribution, Geometric, Hypergeometric, StandardGeometric};
+use rand_distr::{Binomial, Distribution, Geometric, Hypergeometric, StandardGeometric, Zipf};
 use serde_json::json;
 use std::io::Write;
 
@@ -62,6 +62,19 @@ pub fn drive(args: &[String]) -> i32 {
         tickets_total += d;
         out.push(json!({"op": "hist", "kind": "hin", "par": [nn, k, s], "counts": counts, "other": other, "panics": panics, "guard_ok": wb == 0, "tickets": d as u64}).to_string());
     } } }
+    // ---- Zipf with s = 0 is documented to be uniform on 1..n: x = floor(u*n + 1), always accepted (2 words per call)
+    for n in 1..=24u64 {
+        let d = n * 64;
+        for ft in ["f64", "f32"] {
+            let mut counts = vec![0u64; n as usize]; let (mut other, mut wb, mut panics) = (0u64, 0u64, 0u64);
+            for t in 0..d {
+                let mut rng = ScriptRng::new(vec![ticket_word(t as u128, d as u128), rnd.next()], 4);
+                let r = if ft == "f64" { guarded(|| Zipf::new(n as f64, 0.0).unwrap().sample(&mut rng)) } else { guarded(|| Zipf::new(n as f32, 0.0f32).unwrap().sample(&mut rng) as f64) };
+                match r { Ok(x) => { if rng.words() != 2 { wb += 1; } if x >= 1.0 && x <= n as f64 && x.fract() == 0.0 { counts[x as usize - 1] += 1; } else { other += 1; } } Err(_) => panics += 1 }
+            }
+            out.push(json!({"op": "zipf0", "ft": ft, "n": n, "d": d, "counts": counts, "other": other, "panics": panics, "guard_ok": wb == 0}).to_string());
+        }
+    }
     // ---- breakpoint / random tickets for larger parameters (D < 2^30)
     let nt = if thorough { 6000 } else { 1500 };
     for _ in 0..nt {
